@@ -1093,6 +1093,7 @@ type c16GateLoc struct {
 	mu      sync.Mutex
 	hold    bool
 	gates   []chan struct{}
+	gated   atomic.Int64 // number of writes caught so far
 	pending sync.WaitGroup
 }
 
@@ -1101,12 +1102,16 @@ func (l *c16GateLoc) Write(path string, data io.Reader) (string, error) {
 		return l.StorageLocation.Write(path, data)
 	}
 	l.mu.Lock()
+	if os.Getenv("C16_DEBUG") != "" {
+		fmt.Fprintln(os.Stderr, "write", path, "hold", l.hold)
+	}
 	var gate chan struct{}
 	if l.hold {
 		gate = make(chan struct{})
 		l.gates = append(l.gates, gate)
 		l.pending.Add(1)
 		l.hold = false // holds exactly the next snapshot write
+		l.gated.Add(1)
 	}
 	l.mu.Unlock()
 	if gate != nil {
@@ -1273,6 +1278,8 @@ func implJob(c lib.Case) []string {
 		switch {
 		case f[0] == "deploy":
 			out = append(out, deploy(false))
+		case opN == 0:
+			out = append(out, "not-deployed")
 		case f[0] == "fail":
 			cur := fmt.Sprintf("op%d", opN)
 			job.HandleDeregisterOperator(&jobpb.NodeIdentity{Id: cur, Host: cur + "-host"})
@@ -1303,8 +1310,12 @@ func implJob(c lib.Case) []string {
 				out = append(out, "stuck-checkpoint")
 				continue
 			}
+			if os.Getenv("C16_DEBUG") != "" {
+				fmt.Fprintln(os.Stderr, "checkpoint id", id, "queued", len(runner.checkpoints))
+			}
 			positions[id] = pos
 			newest = id
+			gatedBefore := loc.gated.Load()
 			if hold {
 				loc.mu.Lock()
 				loc.hold = true
@@ -1320,10 +1331,27 @@ func implJob(c lib.Case) []string {
 			case e1 != nil || e2 != nil:
 				out = append(out, fmt.Sprintf("error %v %v", e1, e2))
 			case hold:
-				out = append(out, fmt.Sprintf("ck %d held", id))
+				// the write of this snapshot has to be the one that is caught before anything else happens
+				res := fmt.Sprintf("ck %d held", id)
+				for deadline := time.Now().Add(c16Stuck); loc.gated.Load() == gatedBefore; {
+					if time.Now().After(deadline) {
+						res = "stuck-gate"
+						break
+					}
+					time.Sleep(20 * time.Microsecond)
+				}
+				out = append(out, res)
 			case waitCurrent(id):
 				out = append(out, fmt.Sprintf("ck %d", id))
 			default:
+				if os.Getenv("C16_DEBUG") != "" {
+					fmt.Fprintln(os.Stderr, "current", job.VerifCurrentCheckpointIDC16(), "want", id, "errs", len(errCh))
+					select {
+					case e := <-errCh:
+						fmt.Fprintln(os.Stderr, "err", e)
+					default:
+					}
+				}
 				out = append(out, "stuck-publish")
 			}
 		default:
